@@ -366,7 +366,8 @@ Definition check_case (cs : mcase) : list (nat * N) :=
     callback was entered, and HasTarget / Query for every name at the end.
 
     tag 1 (acceptance): the final existence and non-metadata leaves of every
-          name are those of the model after X;Y or after Y;X.
+          name are those of the model after X;Y or after Y;X, and Y was blocked
+          while X was parked exactly when the lock discipline says so.
     tag 7 (K_P): replaying the feed -- an update sets its leaf, a delete
           removes what its index path matches, a whole-target delete everything
           -- gives, per name, exactly the non-metadata leaves Query returns at
@@ -375,8 +376,43 @@ Definition check_case (cs : mcase) : list (nat * N) :=
           Remove overtaken by a re-Add and an update of the new incarnation)
           breaks this. *)
 
+(** [at_now]: parked inside cache.Now (else inside the feed callback);
+    [blocked]: did Y finish while X was parked ([Some false]) or was it seen
+    waiting for a lock ([Some true]); [None]: not determined (slow machine) *)
 Definition conccase :=
-  (config * list string * list mop * mop * list mop * list notif * list (string * tobs))%type.
+  (config * list string * list mop * mop * list mop * bool * option bool *
+   list notif * list (string * tobs))%type.
+
+(** the locks of cache.go (model of the lock discipline, tag 1): what X holds
+    at its park point -- [c.mu] exclusively ([Some true]) / shared ([Some false])
+    and the write lock [wmu] of a target -- and what the first blocking step of
+    a call Y needs *)
+Definition x_holds (x : mop) (at_now : bool) : option bool * option string :=
+  match x with
+  | MRemove _ _ => (Some true, None)                 (* c.mu.Lock held across delete, Now and callback *)
+  | MReset _ t => (Some false, Some t)               (* c.mu.RLock + t.wmu *)
+  | MUpd _ n => (None, match n_prefix n with Some pr => Some (gp_target pr) | None => None end)
+  | MSync _ t | MConnect _ t | MConnectError _ t _ =>
+      (* the notification is stamped (Now) before Target.GnmiUpdate takes t.wmu *)
+      if at_now then (None, None) else (None, Some t)
+  | _ => (None, None)
+  end.
+
+Definition y_needs (y : mop) : bool * option string :=
+  match y with
+  | MAdd _ | MRemove _ _ => (true, None)
+  | MReset _ t | MSync _ t | MConnect _ t | MConnectError _ t _ => (false, Some t)
+  | MUpd _ n => (false, match n_prefix n with Some pr => Some (gp_target pr) | None => None end)
+  | _ => (false, None)
+  end.
+
+Definition blocks (h : option bool * option string) (y : mop) : bool :=
+  let '(yex, yw) := y_needs y in
+  (match fst h with Some true => true | Some false => yex | None => false end) ||
+  (match snd h, yw with Some a, Some b => String.eqb a b | _, _ => false end).
+
+Definition expect_blocked (x : mop) (at_now : bool) (ys : list mop) : bool :=
+  existsb (blocks (x_holds x at_now)) ys.
 
 Definition rstate := list (string * list (path * notif)).
 
@@ -417,11 +453,13 @@ Definition final_matches (c : cache) (final : list (string * tobs)) : bool :=
              bag_eqb pn_eqb d (match to_dump (snd kt) with Some x => non_meta x | None => [] end)) final.
 
 Definition check_conc (cs : conccase) : list (nat * N) :=
-  let '(cfg, names, setup, x, ys, feed, final) := cs in
+  let '(cfg, names, setup, x, ys, at_now, blocked, feed, final) := cs in
   let c0 := fold_left (fun c o => fst (fst (cstep c o))) setup (new_cache cfg names) in
   let cxy := fold_left (fun c o => fst (fst (cstep c o))) (x :: ys) c0 in
   let cyx := fold_left (fun c o => fst (fst (cstep c o))) (ys ++ [x]) c0 in
-  (if final_matches cxy final || final_matches cyx final then [] else [(0%nat, 1%N)]) ++
+  (if (final_matches cxy final || final_matches cyx final) &&
+      match blocked with Some b => Bool.eqb b (expect_blocked x at_now ys) | None => true end
+   then [] else [(0%nat, 1%N)]) ++
   (if kp_replay feed final then [] else [(0%nat, 7%N)]).
 
 Inductive c14case :=
